@@ -163,7 +163,8 @@ Section Norm.
     assert (norm o (e ++ w) = e ++ norm o w) as ->.
     { apply (SS_unique o).
       - apply norm_SS.
-      - apply SS_app; auto using norm_SS. intros x y Ix Iy. apply norm_in in Iy. auto.
+      - apply SS_app; [exact He | apply norm_SS |]. intros x y Ix Iy. apply F; auto.
+        apply (proj1 (norm_in w y)); auto.
       - intros x. rewrite norm_in, !in_app_iff, norm_in. tauto. }
     rewrite firstn_app. f_equal. apply firstn_all2. auto.
   Qed.
@@ -241,8 +242,8 @@ Section Norm.
     - pose proof (sort_WS l) as W. unfold remove_reps. destruct (sort_ids o l) as [|x r]; [constructor|].
       destruct (dedup_adj_spec r x W) as [S _]. destruct (dedup_adj x r); auto.
     - apply norm_SS.
-    - intros y. rewrite norm_in, <- sort_in.
-      pose proof (sort_WS l) as W. unfold remove_reps. destruct (sort_ids o l) as [|x r]; [tauto|].
+    - intros y. rewrite norm_in, <- (sort_in l y).
+      pose proof (sort_WS l) as W. unfold remove_reps. destruct (sort_ids o l) as [|x r]; [simpl; tauto|].
       destruct (dedup_adj_spec r x W) as [_ I]. destruct (dedup_adj x r); auto.
   Qed.
 
